@@ -135,9 +135,14 @@ def check_conversion_twins(ctx, prog, tag):
                 if c.name in M10_ASSERT:
                     return True
                 tgt = prog.fns.get(c.resolved or c.path or "")
-                if tgt is not None and tgt.path.rsplit(">::", 1)[0] == f.path.rsplit(">::", 1)[0] and tgt.path not in seen and tgt is not f:
-                    if asks(tgt, seen + (f.path,)):
-                        return True
+                if tgt is None or tgt.path in seen or tgt is f or len(seen) > 3:
+                    continue
+                same_impl = tgt.path.rsplit(">::", 1)[0] == f.path.rsplit(">::", 1)[0]
+                # a twin of the same impl, or a private helper of the module the check was moved into
+                # (`assert_string_coercible(state, value)`)
+                helper = tgt.crate == "minijinja" and not tgt.is_pub and tgt.kind != "closure" and tgt.loc.f == f.loc.f and tgt.nblocks <= 30
+                if (same_impl or helper) and asks(tgt, seen + (f.path,)):
+                    return True
         return False
     for ty, ms in sorted(impls.items()):
         for base in ("from_state_and_value", "from_state_and_value_owned", "from_state_and_values"):
